@@ -321,8 +321,10 @@ class Ctx:
         ev = {"property_id": self.pid, "tier": self.tier, "seed": self.seed, "level": self.level,
               "coverage": cov, "assumptions": self.assumptions,
               "wall_s": round(time.time() - self.t0, 2), "violations": len(self.violations)}
-        os.makedirs(os.path.join(OUTROOT, "evidence"), exist_ok=True)
-        p = os.path.join(OUTROOT, "evidence", "%s.json" % self.pid)
+        # checks outside the listed properties (X01..: components no listed property covers) keep their evidence apart
+        edir = os.path.join(OUTROOT, "evidence", "extras") if self.pid.startswith("X") else os.path.join(OUTROOT, "evidence")
+        os.makedirs(edir, exist_ok=True)
+        p = os.path.join(edir, "%s.json" % self.pid)
         with open(p + ".tmp", "w") as f:
             json.dump(ev, f, indent=1, sort_keys=True, default=str)
             f.write("\n")
